@@ -105,9 +105,13 @@ class C19(Check):
                 "Pox.C19.flood_ports", "Pox.C19.flood_ports_forest", "Pox.C19.port_mods_are_changes", "Pox.C19.send_failure_recovery", "Pox.C19.bits_are_prev", "Pox.C19.flood_bits",
                 "Pox.C19.probe_roundtrip", "Pox.C19.flood_ports_defect_D20", "Pox.C19.flood_ports_defect_skip",
                 "Pox.C19.flood_ports_defect_outside_tree"]
-    anchors = [("pox/openflow/discovery.py", 168, 206), ("pox/openflow/discovery.py", 322, 486),
-               ("pox/openflow/spanning_tree.py", 47, 106), ("pox/openflow/spanning_tree.py", 156, 227),
-               ("pox/lib/packet/lldp.py", 112, 199)]
+    anchors = [("pox/openflow/discovery.py", "LLDPSender.create_packet_out"), ("pox/openflow/discovery.py", "LLDPSender._create_discovery_packet"),
+               ("pox/openflow/discovery.py", "Discovery._handle_openflow_ConnectionDown"), ("pox/openflow/discovery.py", "Discovery._expire_links"),
+               ("pox/openflow/discovery.py", "Discovery._handle_openflow_PacketIn"), ("pox/openflow/discovery.py", "Discovery._delete_links"),
+               ("pox/openflow/discovery.py", "Discovery.is_edge_port"),
+               ("pox/openflow/spanning_tree.py", "_calc_spanning_tree"), ("pox/openflow/spanning_tree.py", "_handle_ConnectionUp"),
+               ("pox/openflow/spanning_tree.py", "_handle_LinkEvent"), ("pox/openflow/spanning_tree.py", "_update_tree"),
+               ("pox/lib/packet/lldp.py", "lldp.next_tlv"), ("pox/lib/packet/lldp.py", "lldp.parse")]
     trusted_base = ["models Model/STree.lean and Model/Discovery.lean hand-written from spanning_tree.py / discovery.py / lldp.py; tied by this correspondence run",
                     "the culling loop of _calc_spanning_tree is modelled as written (dict-of-dicts as one insertion-ordered association list) and proved equal to the closed form "
                     "the other proofs use (cull_loop_is_closed_form); the iteration order of the `switches` set is an oracle argument fed from the harness",
@@ -138,7 +142,11 @@ class C19(Check):
     coverage_cases = 10 ** 9          # trace every case (the tracer only follows the anchored files)
 
     def extra_evidence(self):
-        return {"anchored_lines_not_reachable_in_this_configuration":
+        return {"prev_shape": self._prev_shape(),
+                "upd_cases_without_prev_comparison": getattr(self, "_skipped_upd", 0),
+                "note_prev": "spanning_tree._prev is read / preset only by the `upd` kind, through an adapter for the nested and the flat {(dpid, port): b} shape; "
+                             "histories observe flood state only through the port_mods sent and a harness-owned per-switch port config that a reconnect resets",
+                "anchored_lines_not_reachable_in_this_configuration":
                 "def lines (executed at import), discovery.py:352-356 (_eat_early_packets off), :371-381 (re-checks of what lldp.parse already enforced), "
                 ":399-400 / :445-446 (except around struct.unpack of a slice whose length was just tested), spanning_tree.py:191-199 (_hold_down off, connect_time None): about 32 anchored lines"}
 
@@ -248,6 +256,17 @@ class C19(Check):
         out.append({"kind": "hist", "topo": lone, "ops": ups + rnd([((1, 1), (2, 1)), ((2, 2), (3, 1))]) + [P((3, 2), (1, 2))]})
         # ... and discovered first
         out.append({"kind": "hist", "topo": lone, "ops": ups + [P((3, 2), (1, 2))] + rnd([((1, 1), (2, 1)), ((2, 2), (3, 1))])})
+        # seeded change C19-F: a switch with a tree-blocked port goes down, comes back with a fresh port config (everything floods) and
+        # its links are rediscovered: the port must be blocked again.  dpids <= 256 and > 256 (MAC-style, 64-bit)
+        for a, b, c2 in ([1, 2, 3], [254, 255, 256], [257, 1001, 1002], [0x00163e000001, 0x00163e000002, 0x00163e000003],
+                         [2 ** 63 + 1, 2 ** 63 + 2, 2 ** 64 - 1]):
+            t3 = {"switches": {str(a): [1, 2, 3], str(b): [1, 2, 3], str(c2): [1, 2, 3]},
+                  "cables": T(((a, 1), (b, 1)), ((b, 2), (c2, 1)), ((a, 2), (c2, 2)))}
+            cab = [((a, 1), (b, 1)), ((b, 2), (c2, 1)), ((a, 2), (c2, 2))]
+            up3 = [{"k": "up", "dpid": d} for d in (a, b, c2)]
+            for victim, again in ((c2, cab[1:]), (b, cab[:2])):
+                out.append({"kind": "hist", "topo": t3, "ops": up3 + rnd(cab) + [{"k": "down", "dpid": victim}, {"k": "tick", "dt": 1000},
+                            {"k": "up", "dpid": victim}] + rnd(again)})
         # C19-2: triangle, then both links of switch 2 die in one sweep: 2 leaves the tree with its port towards 3 still blocked
         out.append({"kind": "hist", "topo": tri, "ops": ups + rnd(c) + [{"k": "tick", "dt": 6000}] + rnd([c[2]]) +
                     [{"k": "tick", "dt": 6000}, {"k": "sweep"}]})
@@ -329,8 +348,8 @@ class C19(Check):
 
     def _topology(self, rng, n=None):
         n = n or rng.choice([2, 3, 3, 4, 4, 5, 6])
-        pool = [1, 2, 3, 4, 5, 6, 7, 9, 10, 16, 17, 255, 4096, 2 ** 32 + 5]
-        dpids = sorted(rng.sample(pool[:8] if rng.random() < 0.7 else pool, n))
+        pool = [1, 2, 3, 4, 5, 6, 7, 9, 10, 16, 17, 255, 256, 257, 1001, 4096, 2 ** 32 + 5, 0x00163e00000a, 0x00163e00000b, 2 ** 63 + 7, 2 ** 64 - 1]
+        dpids = sorted(rng.sample(pool[:8] if rng.random() < 0.5 else pool, n))
         nextport = {d: 1 for d in dpids}
         cables = []
         def cable(a, b):
@@ -374,8 +393,12 @@ class C19(Check):
                 if b[0] in up: ops.append({"k": "probe", "from": list(a), "to": list(b)})
             elif r < 0.68: ops.append({"k": "tick", "dt": 125 * rng.choice([1, 8, 24, 40, 40, 48, 80, 81, 88, 160])})
             elif r < 0.80: ops.append({"k": "sweep"})
-            elif r < 0.87 and up:
+            elif r < 0.84 and up:
                 d = rng.choice(sorted(up)); up.discard(d); ops.append({"k": "down", "dpid": d})
+            elif r < 0.87 and up:                                             # reboot: down, up with a fresh port config, rediscovery
+                d = rng.choice(sorted(up))
+                ops += [{"k": "down", "dpid": d}, {"k": "tick", "dt": 125 * rng.choice([1, 8, 16])}, {"k": "up", "dpid": d}]
+                round_()
             elif r < 0.94:
                 cand = [d for d in dpids if d not in up]
                 if cand:
@@ -471,7 +494,34 @@ class C19(Check):
         return {"tree": sorted([sw, w, p] for sw, ports in tree.items() for (w, p) in ports), "order": order,
                 "keys": list(tree.keys())}
 
+    # -- `spanning_tree._prev` is internal state: touched only through this adapter (nested dict-of-dicts or flat {(dpid, port): b});
+    #    an unknown shape means the `upd` kind cannot preset / read it and is skipped (noted in evidence)
+    def _prev_shape(self):
+        pv = self.st._prev
+        if not isinstance(pv, dict): return None
+        from collections import defaultdict
+        if isinstance(pv, defaultdict): return "nested"
+        return "flat"
+
+    def _prev_set(self, d, p, b):
+        if self._prev_shape() == "nested": self.st._prev[d][p] = b
+        else: self.st._prev[(d, p)] = b
+
+    def _prev_items(self):
+        out = []
+        for k, v in self.st._prev.items():
+            if isinstance(k, tuple) and len(k) == 2:
+                if v is not None: out.append([k[0], k[1], v])
+            elif isinstance(v, dict):
+                out += [[k, p, b] for p, b in v.items() if b is not None]
+            else:
+                raise TypeError("unknown _prev shape")
+        return sorted(out)
+
     def _impl_upd(self, case):
+        if self._prev_shape() is None:
+            self._skipped_upd = getattr(self, "_skipped_upd", 0) + 1
+            return {"skipped": "unknown shape of spanning_tree._prev"}
         L, of = self.disc.Link, self.of
         for l in case["links"]:
             self.D.adjacency[L(*l)] = 0
@@ -484,13 +534,18 @@ class C19(Check):
         for d, ports in case["conns"].items():
             self.core.openflow._connect(FailCon(of, int(d), ports, poxenv.clock()))
         for d, p, b in case["prev"]:
-            self.st._prev[d][p] = b
+            self._prev_set(d, p, b)
         order = self._set_order()
         try:
             self.st._update_tree()
         except Exception as e:
             return {"exc": type(e).__name__, "order": order}
-        prev = sorted([d, p, b] for d, ps in self.st._prev.items() for p, b in ps.items() if b is not None)
+        try:
+            prev = self._prev_items()
+        except TypeError:
+            prev = None
+            self._skipped_upd = getattr(self, "_skipped_upd", 0) + 1
+            self.__dict__.setdefault("_noprev", set()).add(common.canon(case))
         return {"mods": sent, "prev": prev, "order": order}
 
     def _norm_ops(self, case):
@@ -535,7 +590,7 @@ class C19(Check):
             if k == "tick":
                 poxenv.clock.advance(op["dt"] / 1000.0)
             elif k == "up":
-                d = op["dpid"]
+                d = int(str(op["dpid"]))            # a fresh int object, as a newly parsed features reply would carry (equal, not identical)
                 con = StubCon(of, d, sw[d], poxenv.clock())
                 cons[d] = con
                 for key in [key for key in bits if key[0] == d]: del bits[key]
@@ -612,6 +667,7 @@ class C19(Check):
         if k == "calc":
             return {"op": "calc", "adj": case["links"], "order": obs["order"]}
         if k == "upd":
+            if "skipped" in obs: return None
             return {"op": "update", "adj": case["links"], "order": obs["order"], "conns": [[int(d), ps] for d, ps in case["conns"].items()],
                     "prev": case["prev"], "fail": case["fail"]}
         if k == "codec":
@@ -636,7 +692,8 @@ class C19(Check):
         if k == "codec":
             return {"frame": obs["frame"]}
         if k == "upd":
-            return {"exc": obs["exc"]} if "exc" in obs else {"mods": obs["mods"], "prev": obs["prev"]}
+            if "exc" in obs: return {"exc": obs["exc"]}
+            return {"mods": obs["mods"], "prev": obs["prev"]} if obs["prev"] is not None else {"mods": obs["mods"]}
         if k == "hist":
             return {"steps": [{"events": s["events"], "mods": s["mods"]} for s in obs["steps"]], "adjacency": obs["adjacency"]}
         return obs
@@ -651,7 +708,9 @@ class C19(Check):
         if k == "codec":
             return {"frame": resp["frame"]}
         if k == "upd":
-            return {"exc": resp["exc"]} if "exc" in resp else {"mods": resp["mods"], "prev": sorted(resp["prev"])}
+            if "exc" in resp: return {"exc": resp["exc"]}
+            if common.canon(case) in getattr(self, "_noprev", ()): return {"mods": resp["mods"]}
+            return {"mods": resp["mods"], "prev": sorted(resp["prev"])}
         if k == "hist":
             return {"steps": [{"events": o["events"], "mods": sorted(o["mods"])} for o in resp["outs"]], "adjacency": resp["adjacency"]}
         return resp
